@@ -112,6 +112,7 @@ pub enum Shape {
     DenseSideEffects(u64), // a few messages + cursor early, then > 10_000 non-message frames
     BigSidecar(u64),       // > 8 MiB of large messages
     Spread(u64),           // decisions / cursors / checkpoints spread over > 256 KiB of side effects
+    Long(u64),             // several hundred frames per phase: seek-index strides (256) are crossed after a fault
 }
 
 #[derive(Clone, Debug)]
@@ -238,8 +239,17 @@ pub fn queries(msgs: &[(u64, String)], head: u64, big: bool) -> Vec<QueryDef> {
             ("mid", msgs.len() / 2),
             ("first", 0),
             ("back17", msgs.len().saturating_sub(18)),
+            ("p10", msgs.len() / 10),
+            ("p25", msgs.len() / 4),
+            ("p75", msgs.len() * 3 / 4),
+            ("back40", msgs.len().saturating_sub(41)),
         ];
+        let mut seen_idx: Vec<usize> = Vec::new();
         for (tag, i) in picks {
+            if seen_idx.contains(&i) {
+                continue;
+            }
+            seen_idx.push(i);
             q.push(mk(format!("compile(anchor={tag})"), "compile", json!({"message_id": msgs[i].1})));
         }
         q.push(mk("branch(from_message=mid)".into(), "branch", json!({"from_message_id": msgs[msgs.len() / 2].1})));
@@ -390,6 +400,36 @@ pub struct Outcome {
 
 const STEP_BUDGET: u64 = 160;
 
+/// `n` frames quickly: messages with one or two side-effect frames each, every 40th message a rich op.
+fn build_bulk(app: &App, store: &Store, conts: &[String], known: &mut Known, rng: &mut Rng, n: usize, tag: &str) {
+    let st = app.store();
+    let thread = conts[0].clone();
+    let mut made = 0usize;
+    let mut i = 0usize;
+    while made < n {
+        i += 1;
+        if let Ok(id) = st.append_message(&thread, "a".into(), "rv".into(), format!("{tag} bulk {i}")) {
+            known.msgs.push((thread.clone(), id.clone()));
+            made += 1;
+            let link = ContinuityRunLink { continuity_id: thread.clone(), message_id: id, actor_id: "a".into(), origin: "rv".into() };
+            for k in 0..(1 + rng.usize(2)) {
+                let _ = st.append_tool_side_effects(
+                    &link,
+                    "sess-bulk",
+                    ripd::ToolSideEffects { tool_id: format!("{tag}-{i}-{k}"), tool_name: "write".into(), affected_paths: Some(vec![format!("f{i}")]), checkpoint_id: None },
+                );
+                made += 1;
+            }
+        }
+        if i % 40 == 0 {
+            for k in [OpKind::Compile, OpKind::Cursor, OpKind::ManualCkpt, OpKind::RunSpawned, OpKind::RunEnded] {
+                let _ = exec(app, &store.data, conts, known, k, rng, tag);
+                made += 1;
+            }
+        }
+    }
+}
+
 fn build_ops(app: &App, store: &Store, conts: &[String], known: &mut Known, rng: &mut Rng, n: usize, tag: &str) {
     let w = weights();
     if tag.starts_with('p') && tag != "p0" {
@@ -520,11 +560,19 @@ pub fn execute(plan: &Plan, only_faults: Option<&[usize]>) -> Outcome {
                 );
             }
         }
+        Shape::Long(_) => {
+            build_ops(&app, &store, &conts, &mut known, &mut rng, 10, "p1");
+            build_bulk(&app, &store, &conts, &mut known, &mut rng, plan.n[0], "p1");
+        }
         _ => build_ops(&app, &store, &conts, &mut known, &mut rng, plan.n[0], "p1"),
     }
     copy_dir(&store.streams_dir(), &saved);
     // phase 2
-    build_ops(&app, &store, &conts, &mut known, &mut rng, plan.n[1], "p2");
+    if matches!(plan.shape, Shape::Long(_)) {
+        build_bulk(&app, &store, &conts, &mut known, &mut rng, plan.n[1], "p2");
+    } else {
+        build_ops(&app, &store, &conts, &mut known, &mut rng, plan.n[1], "p2");
+    }
     for f in faults.iter().filter(|f| f.at == 1) {
         if apply_fault(&store, &thread, &other, &saved, f) {
             out.applied.push(f.label());
@@ -535,7 +583,12 @@ pub fn execute(plan: &Plan, only_faults: Option<&[usize]>) -> Outcome {
         app = App::open(&store, None).expect("reopen");
     }
     // phase 3: further appends on top of the faulted caches
-    build_ops(&app, &store, &conts, &mut known, &mut rng, plan.n[2], "p3");
+    if matches!(plan.shape, Shape::Long(_)) {
+        build_bulk(&app, &store, &conts, &mut known, &mut rng, plan.n[2], "p3");
+        build_ops(&app, &store, &conts, &mut known, &mut rng, 5, "p3");
+    } else {
+        build_ops(&app, &store, &conts, &mut known, &mut rng, plan.n[2], "p3");
+    }
     drop(app);
     for f in faults.iter().filter(|f| f.at == 2) {
         if apply_fault(&store, &thread, &other, &saved, f) {
@@ -733,6 +786,8 @@ fn plan_from_json(v: &Value) -> Option<Plan> {
         Shape::BigSidecar(num(shape_s))
     } else if shape_s.starts_with("Spread") {
         Shape::Spread(num(shape_s))
+    } else if shape_s.starts_with("Long") {
+        Shape::Long(num(shape_s))
     } else if shape_s == "Medium" {
         Shape::Medium
     } else {
@@ -791,6 +846,7 @@ fn shape_class(s: &Shape) -> &'static str {
         Shape::DenseSideEffects(_) => "dense_side_effects",
         Shape::BigSidecar(_) => "big_sidecar",
         Shape::Spread(_) => "spread",
+        Shape::Long(_) => "bounded",
     }
 }
 
@@ -944,6 +1000,57 @@ pub fn run(cfg: &Cfg) -> i32 {
             }
             if r.samples.len() < r.max_samples {
                 r.sample(json!({"plan": plan_json(&plan), "applied": o.applied, "frames": o.frames, "queries": o.queries}));
+            }
+            judge(&mut r, &plan, &o);
+        }
+    }
+    // 2b. long threads (seek-index strides crossed after the fault) with one index fault plus one fault that
+    //     forces another read path: the messages+runs sidecar made unusable at rest (none of these single
+    //     faults is a known finding on its own, so any disagreement here is new)
+    let mut forced: Vec<(usize, FaultKind, u8, Option<(usize, FaultKind)>)> = Vec::new();
+    for kind in [FaultKind::Delete, FaultKind::TruncZero, FaultKind::Garbage, FaultKind::TruncByte, FaultKind::HeadGarbage] {
+        for file in [1usize, 2] {
+            forced.push((file, kind, 1, Some((3, FaultKind::Garbage))));
+            forced.push((file, kind, 1, Some((3, FaultKind::Delete))));
+        }
+        for file in [4usize, 5] {
+            forced.push((file, kind, 1, None));
+        }
+    }
+    for (file, kind) in [(1usize, FaultKind::Rollback), (2, FaultKind::Rollback), (4, FaultKind::Rollback), (5, FaultKind::Rollback), (1, FaultKind::DropLastLine), (4, FaultKind::DropLastLine)] {
+        forced.push((file, kind, 2, Some((3, FaultKind::Garbage))));
+    }
+    let forced_rounds = cfg.tier.pick(1u64, 6u64);
+    'forced: for round in 0..forced_rounds {
+        for (file, kind, at, second) in &forced {
+            let i = idx;
+            idx += 1;
+            if !cfg.mine(i) {
+                continue;
+            }
+            if r.over(cfg) {
+                break 'forced;
+            }
+            let mut rng = cfg.case_rng(i);
+            let mut faults = vec![Fault { file: *file, kind: *kind, at: *at, salt: rng.next_u64() }];
+            if let Some((f2, k2)) = second {
+                faults.push(Fault { file: *f2, kind: *k2, at: 2, salt: rng.next_u64() });
+            }
+            let plan = Plan {
+                seed: rng.next_u64(),
+                shape: Shape::Long(round),
+                n: [260 + rng.usize(80), 40 + rng.usize(60), 300 + rng.usize(120)],
+                faults,
+                restart1: rng.bool(),
+                restart2: true,
+            };
+            let o = execute(&plan, None);
+            r.eval();
+            if !o.applied.is_empty() {
+                let mut l = o.applied.clone();
+                l.sort();
+                r.distinct_str(&format!("forced:{}", l.join(",")));
+                r.count("path_forcing_long_thread_cases", 1);
             }
             judge(&mut r, &plan, &o);
         }
